@@ -74,6 +74,15 @@ func (p *c02) Init(tier string, seed int64) {
 			p.hand = append(p.hand, fmt.Sprintf("{{ %s['%s'] }}{{ '%s' in %s }}{%% for x in %s['%s'] %%}.{%% endfor %%}{{ %s['%s'] is defined }}{%% set y = %s[('%s')] ~ 1 %%}", v, k, k, v, v, k, v, k, v, k))
 		}
 	}
+	// ... and handed to every construct that takes a whole value: the with-hash of include and embed, the name of a
+	// template, a loop with key, the subject of the container filters
+	for _, v := range c02Vars() {
+		p.hand = append(p.hand,
+			fmt.Sprintf("{%% include 'inc' with %s %%}{%% include 'inc' with %s only %%}{%% embed 'inc' with %s %%}{%% endembed %%}{%% embed 'inc' with %s only %%}{%% block ib %%}{{ a }}{%% endblock %%}{%% endembed %%}", v, v, v, v),
+			fmt.Sprintf("{%% for k, x in %s %%}{{ k }}={{ x }}{{ loop.length }}{%% else %%}none{%% endfor %%}{{ %s|length }}{{ %s|keys|join(',') }}{{ %s|first }}{{ %s|last }}{{ %s|merge(%s)|length }}{{ %s|json_encode }}", v, v, v, v, v, v, v, v),
+			fmt.Sprintf("{%% include %s %%}", v), fmt.Sprintf("{%% extends %s %%}", v), fmt.Sprintf("{%% import %s as q %%}{{ q.m() }}", v), fmt.Sprintf("{%% use %s %%}", v),
+			fmt.Sprintf("{%% include ['inc', %s] %%}", v), fmt.Sprintf("{{ {(%s): 1}|keys|join }}{{ [%s, %s]|join(%s) }}{{ %s ? %s : %s }}{{ %s == %s }}{{ %s in [%s] }}{{ %s starts with %s }}{{ %s matches '/' ~ %s ~ '/' }}", v, v, v, v, v, v, v, v, v, v, v, v, v, v, v))
+	}
 	p.handN = len(p.hand)
 }
 
@@ -93,6 +102,8 @@ func c02Context() map[string]stick.Value {
 		"ov": gen.OuterVal{Inner: gen.Inner{Name: "in", N: 1}, Extra: 2}, "op": gen.OuterPtr{Inner: &gen.Inner{Name: "ep", N: 5}, Extra: 6}, "onil": gen.OuterPtr{Extra: 7}, "oi": gen.OuterIface{Any: []int{1}},
 		"cyc": cyclicMap(), "cycs": cyclicSlice(), "cycp": cyclicStruct(),
 		"str": gen.ValStringer{S: "st"}, "safe": stick.NewSafeValue("<b>", "html"), "tm": time.Date(2021, 3, 4, 5, 6, 7, 0, time.UTC), "nilm": map[string]stick.Value(nil),
+		"mnan": map[float64]string{math.NaN(): "a", 1: "b"}, "mif": map[interface{}]stick.Value{"a": 1, 2: "b", nil: 3, math.NaN(): 4, [2]int{1, 2}: 5}, "mbool": map[bool]int{true: 1, false: 0},
+		"mptr": &map[string]stick.Value{"a": 1}, "mst": map[gen.Inner]int{{Name: "x", N: 1}: 1},
 	}
 }
 
@@ -121,6 +132,9 @@ func detContext() map[string]stick.Value {
 	c := c02Context()
 	c["m"] = map[string]stick.Value{"k": "v"}
 	delete(c, "cyc") // two entries: iteration order
+	c["mnan"] = map[float64]string{math.NaN(): "a"}
+	c["mif"] = map[interface{}]stick.Value{math.NaN(): 4}
+	c["mbool"] = map[bool]int{true: 1}
 	return c
 }
 
@@ -166,11 +180,18 @@ func (p *c02) Describe(i int) interface{} {
 	return map[string]interface{}{"kind": "random-program", "twig_env": tw, "templates": gen.DescribeTemplates(ts)}
 }
 
+// c02Inc is what the hand-written templates include and embed.
+const c02Inc = "<{{ a }}{{ k }}{% block ib %}ib{% endblock %}{% set a = 1 %}>"
+
 func execNoPanic(env *stick.Env, name string, ctx map[string]stick.Value, budgetLen int) (out string, err error, pan interface{}, steps int64) {
 	var buf bytes.Buffer
 	mon.BeginExec()
 	func() {
-		defer func() { pan = recover() }()
+		defer func() {
+			if r := recover(); r != nil {
+				pan = fmt.Sprintf("%v [%s]", r, panicSite())
+			}
+		}()
 		err = env.Execute(name, &buf, ctx)
 	}()
 	_, _, steps = mon.EndCall()
@@ -195,9 +216,9 @@ func (p *c02) Run(i int) (res fw.Result) {
 		for _, tw := range []bool{false, true} {
 			var env *stick.Env
 			if tw {
-				env, _ = mon.NewTwigEnv(map[string]string{"main": src})
+				env, _ = mon.NewTwigEnv(map[string]string{"main": src, "inc": c02Inc})
 			} else {
-				env, _ = mon.NewCoreEnv(map[string]string{"main": src})
+				env, _ = mon.NewCoreEnv(map[string]string{"main": src, "inc": c02Inc})
 				for n, f := range twig.New(nil).Filters {
 					if _, ok := env.Filters[n]; !ok && n != "escape" {
 						env.Filters[n] = f
